@@ -1,5 +1,5 @@
 import Proofs.C14.Desc2
-/-! C14 proofs: instance rings at descriptor level (`rangesForInstance` vs. `lookupInZone`). -/
+/-! C14 proofs: instance rings at descriptor level (`rangesForInstanceOld` vs. `lookupInZone`). -/
 namespace PfC14
 open C14 Ring
 
@@ -134,21 +134,21 @@ theorem zoneFlags_wf (d : Desc) (h : WFR d) (zone id : String) :
   have := (mem_zoneTokens d zone t i).mp hm
   exact h.bound i this.1 t this.2.2
 
-/-- current code: exact unless the zone layout is `bad` for the instance. -/
-theorem rangesForInstance_exact (d : Desc) (h : WFR d) (inst : Inst) (hi : inst ∈ d) (hz : inst.zone ≠ "")
+/-- the walk before fix 9068690: exact unless the zone layout is `bad` for the instance. -/
+theorem rangesForInstanceOld_exact (d : Desc) (h : WFR d) (inst : Inst) (hi : inst ∈ d) (hz : inst.zone ≠ "")
     (hne : zoneTokens d inst.zone ≠ []) (hbad : bad (zoneFlags d inst.zone inst.id) = false) :
+    ∃ tr, rangesForInstanceOld d true (zonesOf d).length inst.id = .ok tr ∧
+      ∀ k, k ≤ maxU32 → (includesKey tr k = true ↔ lookupInZone d inst.zone k = some inst.id) := by
+  have ⟨hs, hb⟩ := zoneFlags_wf d h inst.zone inst.id
+  exact rangesForInstanceWith_exact instRangesOfOld d h inst hi hz hne
+    (fun k hk => instOld_exact_of_not_bad _ hs hb hbad k hk)
+
+/-- the code: exact on every well-formed ring. -/
+theorem rangesForInstance_exact (d : Desc) (h : WFR d) (inst : Inst) (hi : inst ∈ d) (hz : inst.zone ≠ "")
+    (hne : zoneTokens d inst.zone ≠ []) :
     ∃ tr, rangesForInstance d true (zonesOf d).length inst.id = .ok tr ∧
       ∀ k, k ≤ maxU32 → (includesKey tr k = true ↔ lookupInZone d inst.zone k = some inst.id) := by
   have ⟨hs, hb⟩ := zoneFlags_wf d h inst.zone inst.id
-  exact rangesForInstanceWith_exact instRangesOf d h inst hi hz hne
-    (fun k hk => inst_exact_of_not_bad _ hs hb hbad k hk)
-
-/-- suggested fix: exact on every well-formed ring. -/
-theorem rangesForInstanceF_exact (d : Desc) (h : WFR d) (inst : Inst) (hi : inst ∈ d) (hz : inst.zone ≠ "")
-    (hne : zoneTokens d inst.zone ≠ []) :
-    ∃ tr, rangesForInstanceF d true (zonesOf d).length inst.id = .ok tr ∧
-      ∀ k, k ≤ maxU32 → (includesKey tr k = true ↔ lookupInZone d inst.zone k = some inst.id) := by
-  have ⟨hs, hb⟩ := zoneFlags_wf d h inst.zone inst.id
-  exact rangesForInstanceWith_exact instRangesOfF d h inst hi hz hne (fun k hk => instF_exact _ hs hb k hk)
+  exact rangesForInstanceWith_exact instRangesOf d h inst hi hz hne (fun k hk => inst_exact _ hs hb k hk)
 
 end PfC14
